@@ -6,6 +6,7 @@ import GmQuic.Lemmas.StreamDone
 import GmQuic.Lemmas.StreamLiveN
 import GmQuic.Lemmas.StreamLiveV
 import GmQuic.Lemmas.StreamWinC
+import GmQuic.Lemmas.StreamWinD
 /-!
 C01 — stream data is delivered reliably, in order, exactly once.
 
@@ -437,5 +438,65 @@ example :
     s2.snd.pickOk 4 6 ∧ (s2.run (pickOps [(4, 6)])).snd.somePick = none ∧
     let t := (s2.run (pickOps [(4, 6)])).run (settleOps (fun _ => true) (List.range' 1 1) ++ [.read 11, .read 11])
     t.eof = true ∧ t.out = [1, 2, 3, 4, 5, 6, 7, 8, 9, 10] ∧ t.snd.st = .dataRcvd ∧ t.rcv.st = .dataRead := by decide
+
+/-- The flow-control hypothesis is discharged: `WinOk` holds after EVERY no-abort history with an honest network from
+`init w w` (both ends start from the same positive `initial_max_stream_data`, RFC 9000 §18.2 / C11) — writes, picks,
+deliveries in any order and multiplicity, losses, acknowledgements after deliveries, reads of any size, MAX_STREAM_DATA
+frames delivered in any order, any number of times, or never. -/
+theorem flow_history (w : Nat) (hw : 0 < w) (l : List HOp)
+    (hlen : (after w w (hops l)).snd.written.length < varintMax) : WinOk (after w w (hops l)) :=
+  winOk_of_winv (fair_history w w (Nat.le_refl _) l).reach hlen
+    (winv_run (fair_init w w (Nat.le_refl _)) (winv_init w hw) l)
+
+/-- LIVENESS WITH FLOW CONTROL, every hypothesis discharged: after EVERY no-abort history with an honest network from
+`init w w`, `w > 0` — whatever the size of the stream relative to the window — there is a finite continuation made
+of cooperative operations only (`shutdown`, picks, deliveries, acknowledgements, loss declarations, reads, delivery of
+MAX_STREAM_DATA) after which the reader has read exactly what was written, has seen end-of-stream, and the sender is
+in `DataRcvd`. -/
+theorem completes_after_every_history_windowed (w : Nat) (hw : 0 < w) (l : List HOp)
+    (hlen : (after w w (hops l)).snd.written.length < varintMax) :
+    ∃ ops : List Op, (∀ op ∈ ops, op.coopW = true) ∧
+      ((after w w (hops l)).run ops).eof = true ∧
+      ((after w w (hops l)).run ops).out = (after w w (hops l)).snd.written ∧
+      ((after w w (hops l)).run ops).snd.st = .dataRcvd ∧
+      ((after w w (hops l)).run ops).snd.pollShutdown.2 = "ready" ∧
+      ((after w w (hops l)).run ops).snd.pollFlush = "ready" := by
+  have hf := fair_history w w (Nat.le_refl _) l
+  have hwin := flow_history w hw l hlen
+  generalize after w w (hops l) = s0 at *
+  let cap := s0.snd.written.length + 1
+  obtain ⟨cs, hcl, hsched⟩ := windowed_schedule_exists s0 hf cap (s0.snd.written.length - s0.snd.maxData)
+  obtain ⟨f1, _, _, _, _⟩ := sched_spec cap cs hf hwin hlen (Nat.lt_succ_self _) hsched
+  obtain ⟨o1, e1, c1⟩ := sched_ops cap cs s0
+  obtain ⟨ps, p1, _, p3⟩ := cooperative_suffix_exists _ f1 (fun _ => true)
+  have hc := eventually_complete_windowed s0 hf hwin hlen cap (Nat.lt_succ_self _) cs hsched (Or.inl (by omega))
+    (fun _ => true) ps p1 p3
+  obtain ⟨d1, d2, _, d4, d5, d6, _⟩ := hc
+  generalize cs.foldl (wround cap) s0 = s1 at *
+  subst e1
+  refine ⟨o1 ++ ((.shutdown :: settleOps (fun _ => true) (List.range (s0.run o1).emitted.length)) ++ pickOps ps ++
+    (settleOps (fun _ => true) (List.range' (s0.run o1).emitted.length
+      ((((s0.run o1).run (.shutdown :: settleOps (fun _ => true) (List.range (s0.run o1).emitted.length))).run
+        (pickOps ps)).emitted.length - (s0.run o1).emitted.length)) ++ [.read cap, .read cap])), ?_, ?_⟩
+  · intro op hm
+    rcases List.mem_append.mp hm with e | e
+    · exact c1 op e
+    · apply coopW_of_coop
+      rcases List.mem_append.mp e with e | e
+      · rcases List.mem_append.mp e with e | e
+        · rcases List.mem_cons.mp e with e | e
+          · subst e; rfl
+          · exact settle_coop _ _ op e
+        · exact pickOps_coop ps op e
+      · rcases List.mem_append.mp e with e | e
+        · exact settle_coop _ _ op e
+        · have e' : op = .read cap := by simpa using e
+          subst e'; rfl
+  · simp only [run_append] at d1 d2 d4 d5 d6 ⊢
+    exact ⟨d1, d2, d4, d5, d6⟩
+
+-- non-vacuity: the 10-byte stream behind the 4-byte window is such a history
+example : exWin = after 4 4 (hops [.write [1, 2, 3, 4, 5, 6, 7, 8, 9, 10]]) ∧ (0 : Nat) < 4 ∧
+    exWin.snd.written.length < varintMax := ⟨rfl, by decide, by decide⟩
 
 end GmQuic.Stream
